@@ -275,6 +275,37 @@ func aclScenario(w *world.World, rng *rand.Rand, rec *mon.Recorder, nClients int
 		for _, ext := range []string{o.Name + "-beta", o.Name + "0"} {
 			X.GovExec(&clienttypes.MsgRegisterRelayer{Title: "t", Description: "d", ChainName: ext, Relayers: []string{prefixRelayer.Addr.String()}, Authority: gov})
 		}
+		// a passed proposal whose later message fails is rolled back as a whole (gov executes all messages on a branch of
+		// the state and discards it): its register-relayer / routing-rules / create-client messages must leave nothing
+		// behind, neither in the store nor in the behaviour of the next messages
+		{
+			rolled := []sdk.Msg{
+				&clienttypes.MsgRegisterRelayer{Title: "t", Description: "d", ChainName: o.Name, Relayers: []string{X.Accounts[2].Addr.String(), foreignRelayer.Addr.String()}, Authority: gov},
+				&routingtypes.MsgSetRoutingRules{Title: "t", Description: "d", Rules: []string{"rolledback,*,*"}, Authority: gov},
+			}
+			rulesBefore, _ := X.App.TIBCKeeper.RoutingKeeper.GetRoutingRules(X.Ctx())
+			a := &world.Action{Kind: "gov-rolled-back", On: X, Note: "proposal with a failing last message", Exec: func(ctx sdk.Context) error {
+				for _, m := range rolled {
+					if _, err := X.App.MsgServiceRouter().Handler(m)(ctx, m); err != nil {
+						return err
+					}
+				}
+				return fmt.Errorf("the last message of the proposal failed")
+			}}
+			w.Do(a)
+			rec.Count("rolled-back-proposals", 1)
+			rec.Judge("acl/rolled-back-proposal", nClients, len(a.Res.Diff))
+			if len(a.Res.Diff) > 0 {
+				rec.Violate("unauthorised-request-took-effect", map[string]string{"msg": "rolled-back-proposal", "signer": "gov-exec"}, fmt.Sprintf("%d keys changed", len(a.Res.Diff)), w.Witness(6))
+			}
+			if X.App.TIBCKeeper.ClientKeeper.AuthRelayer(X.Ctx(), o.Name, X.Accounts[2].Addr.String()) {
+				rec.Violate("unauthorised-request-took-effect", map[string]string{"msg": "rolled-back-proposal", "signer": "gov-exec", "what": "relayer of a rolled-back registration is authorised"}, o.Name, w.Witness(6))
+			}
+			rulesAfter, _ := X.App.TIBCKeeper.RoutingKeeper.GetRoutingRules(X.Ctx())
+			if fmt.Sprint(rulesBefore) != fmt.Sprint(rulesAfter) || X.App.TIBCKeeper.RoutingKeeper.Authenticate(X.Ctx(), "rolledback", "x", "y") {
+				rec.Violate("unauthorised-request-took-effect", map[string]string{"msg": "rolled-back-proposal", "signer": "gov-exec", "what": "routing rules of a rolled-back proposal are in force"}, fmt.Sprint(rulesAfter), w.Witness(6))
+			}
+		}
 		type who struct {
 			name string
 			acc  *vnet.Account
